@@ -32,7 +32,7 @@ func init() {
 	register(&Rule{ID: "E-NO-BYTE-INDEX", Props: []string{"C11"}, Floor: 1,
 		Doc: "no byte indexing s[i] of a string in the evaluator: every access to string content goes through unicode/utf8 or strings",
 		Run: ruleENoByteIndex})
-	register(&Rule{ID: "E-NONNIL-SLICE", Props: []string{"C18", "C01"}, Floor: 17,
+	register(&Rule{ID: "E-NONNIL-SLICE", Props: []string{"C18", "C01", "C12"}, Floor: 17,
 		Doc: "no []any or map[string]any that the evaluator converts into a result can be a nil slice/map originating in the function itself (a nil slice serialises as null instead of [])",
 		Run: ruleENonNilSlice})
 }
